@@ -70,9 +70,17 @@ type State struct {
 	MaxBody         uint64
 	HasMaxBody      bool
 	Emitted         map[uint64]*Emitted
+	MintDenom       string
 	Minted          *big.Int // sum over accepted burn messages
 	Burned          *big.Int // sum over outbound deposits
 	AcceptedBurnMsg int
+}
+
+func (s *State) mintDenom() string {
+	if s.MintDenom != "" {
+		return s.MintDenom
+	}
+	return chain.MintDenom
 }
 
 func NewState() *State {
@@ -601,8 +609,8 @@ func (s *State) expectDeposit(e *Expect, kind, from string, amt *big.Int, dst ui
 		e.dc("messenger-length")
 	}
 	switch {
-	case burnToken == chain.MintDenom:
-	case !strings.EqualFold(burnToken, chain.MintDenom):
+	case burnToken == s.mintDenom():
+	case !strings.EqualFold(burnToken, s.mintDenom()):
 		e.Conds |= P3Denom
 		e.fail("not-minting-denom", "C08")
 	default:
